@@ -52,6 +52,7 @@ type kase struct {
 	Skey       string
 	Desc       string
 	DeadlineMS int
+	PollMS     int
 }
 
 const deadlineMS = 700
@@ -64,6 +65,7 @@ func main() {
 	run.Rule("(i) deterministic mutational sweep of add-checkpoint bodies (seeds: valid requests of every verdict class) through the real handler and real witness: no panic, status in {200,400,403,404,409,422,429,500}; (i') eight goroutines send state-independent bodies (malformed, unknown origin, bad signature) in fragments to ONE handler at the same time: no panic, each gets its own status; (ii) Proof.Unmarshal and the body parser on arbitrary and mutated bytes: no panic; (iii) hostile responses for all five feeders and the distributor, executed in child processes that log each case before running it: first answer in {valid, log-signed checkpoints with sizes {0,1,2^62-1,2^62,2^62+1,2^63-1,2^63,2^64-1} x root lengths {0,5,32,33}, truncated, random, empty, 5 MiB, 404, 500, redirect loop, stall, transport error} x other answers {404, random, empty, zero tile, 5 MiB, 500, stall} x witness {holds nothing, holds a small honest checkpoint}; each cycle has a context deadline D and must end with a result or an error by D+10 s, else the parent kills the child and attributes the hang to the logged case. evaluations = inputs executed; nontrivial = distinct (part, feeder, first-answer class, other-answer class, witness state, outcome class)")
 	run.Assume("process liveness and bounded return are judged per case; a case still running D+10 s after it was logged is a hang", "coverage-guided fuzzing is not part of the quick tier")
 	run.Floor("handler_inputs", 100000)
+	run.Floor("hostile_polling_loops", 100)
 	run.Floor("parser_inputs", 50000)
 	run.Floor("hostile_cases", 600)
 	for _, f := range []string{"serverless", "sumdb", "pixel", "rekor", "tiles", "distributor"} {
@@ -444,6 +446,13 @@ func hostile(run *ev.Run, dir string) {
 			}
 		}
 	}
+	// a share of the feeder cases runs as the polling loop the service uses (3-4 cycles within the deadline)
+	for i := range cases {
+		if cases[i].Kind != "distributor" && i%6 == 3 {
+			cases[i].PollMS = 180
+			cases[i].Desc += "/polling"
+		}
+	}
 	run.Extra("hostile_case_count", len(cases))
 	// run in child processes, batches interleaved over workers
 	workers := 16
@@ -540,6 +549,12 @@ func runBatch(run *ev.Run, dir string, w int, cases []kase) {
 			run.Distinct("nontrivial", fmt.Sprintf("hostile/%s/%s/%s/%s", c.Kind, fc, parts[len(parts)-1], oc))
 			if strings.HasPrefix(res, "harness:") {
 				run.Inconclusive("hostile case could not be set up: " + res)
+			}
+			if c.PollMS > 0 {
+				run.Count("hostile_polling_loops")
+				if strings.Contains(res, "early=true") {
+					run.Violate("polling_loop_ended_while_context_alive;"+c.Kind, fmt.Sprintf("case %q: the feeder's polling loop returned before its context ended (%s); omniwitness.Main stops the whole service when a feeder returns", c.Desc, res[:min(len(res), 200)]), int64(c.ID), map[string]any{"case": c.Desc, "result": res})
+				}
 			}
 			if id%211 == 0 {
 				run.Sample(map[string]any{"part": "hostile", "case": c.Desc, "result": res[:min(len(res), 200)]})
